@@ -46,10 +46,10 @@ type Check struct {
 	ID        string
 	Rule      string
 	Assume    []string
-	Worker    func(e *Env) *res.Result               // in-process shard
-	Main      func(e *Env) (*res.Result, error)      // compiled checks: whole pipeline
-	Replay    func(e *Env, path string) *res.Result  // optional
-	Finalize  func(e *Env, r *res.Result)            // optional post-merge (vacuity guards)
+	Worker    func(e *Env) *res.Result              // in-process shard
+	Main      func(e *Env) (*res.Result, error)     // compiled checks: whole pipeline
+	Replay    func(e *Env, path string) *res.Result // optional
+	Finalize  func(e *Env, r *res.Result)           // optional post-merge (vacuity guards)
 	MinNonTrv int
 }
 
